@@ -208,7 +208,7 @@ func Run(c *vf.Check) {
 	den := deniableJobs(c)
 	vf.Parallel(len(den), func(i int) { den[i]() })
 	c.Finish(fmt.Sprintf("engine E over a predicate grammar: %d predicate trees = shapes {Rep1, Rep2, And of up to 2 Reps, Or of up to 3 branches of Rep or And(Rep,Rep)} (thorough: Rep3, And of 3, 4 branches) x every sharing pattern of 3 scalar names over the term slots x every sharing pattern of 3 base points (restricted-growth strings, i.e. all assignments up to renaming), on Ed25519 (all), P-256 (every 9th), bn256.G1 (every 13th). ", len(trees))+
-		"Per tree: every Or-branch as the proven one x the other branches' statements {all true, all false, alternating}; HashProve then HashVerify accepts; each secret of the proven branch falsified -> prover or verifier error; the valid proof truncated at every length, one bit per byte flipped (thorough: every bit), extended -> error; verification against each public point replaced, against every other tree of the same shape with a different sharing pattern (first 6), against another protocol name -> error. Deniable prover: cliques of 2 and 3 participants on a lock-step Context, each proving a tree and verifying everybody (including itself): all accept; with one participant's secret falsified exactly that participant's proof is reported bad by every verifier. "+
+		"Per tree: every Or-branch as the proven one x the other branches' statements {all true, all false, alternating}; HashProve then HashVerify accepts; each secret of the proven branch falsified -> prover or verifier error; the valid proof truncated at every length, one bit per byte flipped (thorough: every bit), extended -> error; verification against each public point replaced, against every other tree of the same shape with a different sharing pattern (first 6), against another protocol name -> error. Deniable prover: cliques of 2 and 3 participants on a lock-step Context, each proving a tree and verifying everybody (including itself): all accept; with one participant's secret falsified exactly that participant's proof is reported bad by every verifier; cliques of 2 plus a verify-only participant (its own prover does nothing) whose verdicts on the others are judged the same way. "+
 		"Nested conjunctions And(And(R0,R1),R2), And(R0,And(R1,R2)), And(And(R0,R1),R2,R3), And(And(R0,R1,R2),And(R3)) and Or(And(And(R0,R1),R2),R3): every member binds (wrong secret / replaced point of each member -> no accepted proof). One Predicate object used with suites of Ed25519, P-256 and bn256.G1 in five orders, both branches each time. "+
 		"non-trivial = trees with >= 2 term slots; distinct by (group, tree, branch, truth pattern, mutation)",
 		[]string{"prover randomness is a seeded stream per case", "a mutated proof verifying by chance is ignored"}, nil)
